@@ -13,6 +13,8 @@ model picks - symbolically - an abnormal termination:
   after     target runs completely, then exit 1   (all effects visible)
   raise_at  an exception is raised inside the target at its n-th
             instrumented step (effects up to that step), exit 1
+  killed_at (opt-in per harness) the worker is killed by a signal at its
+            n-th instrumented step: effects up to that step, exit -9
 
 Worker bodies are atomic with respect to each other: that is the
 granularity at which the real code synchronises (per-worker files, or a
@@ -24,6 +26,13 @@ FAULT_MODES = ['ok', 'before', 'killed', 'after', 'raise_at']
 
 class WorkerAbort(Exception):
     """injected failure inside a worker body"""
+
+
+class WorkerKilled(BaseException):
+    """injected kill inside a worker body (not an Exception: handlers in
+    the worker body do not see it; its finally blocks do run, which a real
+    SIGKILL would skip - effects of those blocks are therefore an
+    under-approximation of what a kill leaves behind)"""
 
 
 class Sched:
@@ -55,6 +64,7 @@ class Sched:
         self.fault_steps = fault_steps
         self.outcome = {}        # idx -> mode
         self.step_budget = None  # active raise_at budget
+        self.killing = False
         self.managers = 0
         self.started_before_seed = []
 
@@ -69,6 +79,8 @@ def step(label=''):
         return
     if SCHED.step_budget == 0:
         SCHED.step_budget = None
+        if SCHED.killing:
+            raise WorkerKilled(f"injected kill at step {label}")
         raise WorkerAbort(f"injected failure at step {label}")
     SCHED.step_budget -= 1
 
@@ -112,16 +124,18 @@ class Process:
         elif mode == 'after':
             self._run()
             self._code = 1
-        elif mode == 'raise_at':
+        elif mode in ('raise_at', 'killed_at'):
             n = ctx.choice(f"{SCHED.tag}fault_step[{self.idx}]",
                            max(1, SCHED.fault_steps))
             SCHED.step_budget = n
+            SCHED.killing = mode == 'killed_at'
             try:
                 self._run()
-            except WorkerAbort:
+            except (WorkerAbort, WorkerKilled):
                 pass
             SCHED.step_budget = None
-            self._code = 1
+            SCHED.killing = False
+            self._code = 1 if mode == 'raise_at' else -9
         self.state = 'done'
         SCHED.order.append(self.idx)
 
@@ -132,6 +146,7 @@ class Process:
             raise
         except Exception as e:       # a worker that raises exits with 1
             SCHED.outcome[self.idx] = f"raised {type(e).__name__}: {e}"
+            SCHED.step_budget = None
             self._code = 1
             self.state = 'done'
             raise WorkerAbort(str(e))
